@@ -130,6 +130,9 @@ def routes(dim, call, sigma):
             yield "SE3[k]*", (lambda: SE3([gamma.T4(h, sigma) for h in hs]) * P), "full"
             yield "SO3[k]*", (lambda: SO3([gamma.R3(h) for h in hs]) * P), "rot"
             yield "UnitQuaternion[k]*", (lambda: UnitQuaternion([UnitQuaternion(gamma.qvec(h)) for h in hs]) * P), "rot"
+            # a unit quaternion object built from a multi-valued pose OBJECT (rotation parts, one per value)
+            yield "UnitQuaternion(SO3[k])*", (lambda: UnitQuaternion(SO3([gamma.R3(h) for h in hs])) * P), "rot"
+            yield "UnitQuaternion(SE3[k])*", (lambda: UnitQuaternion(SE3([gamma.T4(h, sigma) for h in hs])) * P), "rot"
             # the rotation-matrix route of a multi-valued object: its .R stack, one matrix per value
             Pv = np.asarray(P, dtype=float).flatten()
             yield "UnitQuaternion[k].R@", (lambda: np.column_stack(
@@ -239,6 +242,86 @@ def run_case(j, dim, e, sigma):
             j.ok(cid, nontrivial=n > 1 or call["form"] != "array")
 
 
+def valuations(j, rng, n):
+    """the whole group, real data: random rotations (tiny, generic, within 1e-6 of a half turn), translations and
+    points of magnitude 1e-6 .. 1e6; every route against R p + t computed here, and the laws of the statement"""
+    import math
+    from spatialmath import SO2, SE2, SO3, SE3, UnitQuaternion
+    from spatialmath.DualQuaternion import UnitDualQuaternion
+    import spatialmath.base as b
+    import ctorlib
+    for i in range(n):
+        ang = [10 ** rng.uniform(-9, -2), rng.uniform(0.05, 3.0), math.pi - 10 ** rng.uniform(-9, -3), rng.uniform(-3.1, 3.1)][i % 4]
+        u = np.array([rng.gauss(0, 1) for _ in range(3)])
+        u /= np.linalg.norm(u)
+        R = ctorlib._axis_rot(list(u), ang)
+        mag = 10 ** rng.uniform(-6, 6)
+        t = np.array([rng.uniform(-1, 1) for _ in range(3)]) * mag
+        npts = 1 + i % 7
+        P = np.array([[rng.uniform(-1, 1) for _ in range(npts)] for _ in range(3)]) * mag
+        band = "angle=%s;mag=1e%d;N=%d" % (["tiny", "generic", "near-pi", "any"][i % 4], int(math.floor(math.log10(mag) / 3) * 3), npts)
+        T = b.rt2tr(R, t)
+        Tu = b.rt2tr(R, t / mag * min(mag, 1e3))          # the dual quaternion route holds t q / 2: moderate translations
+        exp_full, exp_rot = R @ P + t[:, None], R @ P
+        arg = P if npts > 1 else P[:, 0]
+        rts = {"SE3*": (lambda: SE3(T) * arg, exp_full), "SO3*": (lambda: SO3(R) * arg, exp_rot),
+               "UnitQuaternion(R)*": (lambda: UnitQuaternion(SO3(R)) * arg, exp_rot),
+               "homtrans": (lambda: b.homtrans(T, P), exp_full),
+               "h2e(T@e2h)": (lambda: b.h2e(T @ b.e2h(P)), exp_full),
+               "UnitDualQuaternion*": ((lambda: np.column_stack([np.asarray(UnitDualQuaternion(SE3(Tu)) * P[:, k]).flatten() for k in range(npts)])),
+                                       R @ P + Tu[:3, 3][:, None]),
+               "SE3.inv()*(SE3*p)": (lambda: SE3(T).inv() * (SE3(T) * arg), P)}
+        Y = SE3(b.rt2tr(ctorlib._axis_rot([0.6, 0.0, 0.8], rng.uniform(-3, 3)), t[::-1].copy()))
+        rts["(X*Y)*p"] = (lambda: (SE3(T) * Y) * arg, R @ (Y.R @ P + np.asarray(Y.t)[:, None]) + t[:, None])
+        rts["X*(Y*p)"] = (lambda: SE3(T) * (Y * arg), rts["(X*Y)*p"][1])
+        for site, (fn, want) in rts.items():
+            cid = ("valuation", site, band.split(";")[0])
+            try:
+                got = np.asarray(fn(), dtype=float).reshape(3, -1)
+            except Exception as ex:  # noqa: BLE001
+                j.fail("%s|%s|%s|raised-%s" % (PID, site, band, type(ex).__name__), {"kind": "valuation", "T": T.tolist(), "P": P.tolist()}, cid)
+                continue
+            d = float(np.max(np.abs(got - want))) if got.shape == want.shape else float("inf")
+            # 1e-9 relative to the data magnitude (translation and points have the same magnitude here)
+            if not (d <= TOL * max(mag, 1e-300)):
+                j.fail("%s|%s|%s|wrong-point" % (PID, site, band), {"kind": "valuation", "T": T.tolist(), "P": P.tolist(), "distance": d, "mag": mag}, cid)
+            else:
+                j.ok(cid)
+        # distances and handedness are preserved
+        if npts >= 4:
+            cid = ("valuation", "distance-handedness")
+            Q = np.asarray(SE3(T) * P, dtype=float)
+            d0 = np.linalg.norm(P[:, 1:] - P[:, :1], axis=0)
+            d1 = np.linalg.norm(Q[:, 1:] - Q[:, :1], axis=0)
+            h0 = float(np.linalg.det(P[:, 1:4] - P[:, :1])) / mag ** 3
+            h1 = float(np.linalg.det(Q[:, 1:4] - Q[:, :1])) / mag ** 3
+            ok = float(np.max(np.abs(d0 - d1))) <= TOL * mag and abs(h0 - h1) <= 1e-6 * max(1.0, abs(h0))
+            if not ok:
+                j.fail("%s|SE3*|%s|distance-or-handedness-changed" % (PID, band), {"kind": "valuation", "T": T.tolist(), "P": P.tolist()}, cid)
+            else:
+                j.ok(cid)
+        # 2D
+        th = ang if i % 2 else -ang
+        R2 = np.array([[math.cos(th), -math.sin(th)], [math.sin(th), math.cos(th)]])
+        H = b.rt2tr(R2, t[:2])
+        P2 = P[:2]
+        arg2 = P2 if npts > 1 else P2[:, 0]
+        for site, fn, want in (("SE2*", lambda: SE2(H) * arg2, R2 @ P2 + t[:2, None]), ("SO2*", lambda: SO2(R2) * arg2, R2 @ P2),
+                               ("homtrans(2D)", lambda: b.homtrans(H, P2), R2 @ P2 + t[:2, None]),
+                               ("SE2.inv()*(SE2*p)", lambda: SE2(H).inv() * (SE2(H) * arg2), P2)):
+            cid = ("valuation", site, band.split(";")[0])
+            try:
+                got = np.asarray(fn(), dtype=float).reshape(2, -1)
+            except Exception as ex:  # noqa: BLE001
+                j.fail("%s|%s|%s|raised-%s" % (PID, site, band, type(ex).__name__), {"kind": "valuation", "H": H.tolist(), "P": P2.tolist()}, cid)
+                continue
+            d = float(np.max(np.abs(got - want))) if got.shape == want.shape else float("inf")
+            if not (d <= TOL * mag):
+                j.fail("%s|%s|%s|wrong-point" % (PID, site, band), {"kind": "valuation", "H": H.tolist(), "P": P2.tolist(), "distance": d}, cid)
+            else:
+                j.ok(cid)
+
+
 def run(tier):
     j = Judge(PID)
     stats = {}
@@ -260,8 +343,10 @@ def run(tier):
         if len(seen) < 300:
             raise MachineryError("point export too small")
         j.sample({"case": r.json[len(r.json) // 2]})
+    lat = j.evaluations
+    valuations(j, random.Random(common.seed() + 6), 2000 if tier == "thorough" else 120)
     cov = {"states": tot_s, "transitions": tot_t, "traces_validated_against_impl": ncase, "tlc": stats,
-           "exhaustive": True,
+           "exhaustive": True, "lattice_exact": lat, "valuation": j.evaluations - lat,
            "rule": "case = (route, call form, container form, number of points / poses, data scale); poses from a "
                    "fixed list of lattice and rational motions, integer points; non-trivial = more than one column "
                    "or a non-default container form"}
